@@ -125,6 +125,7 @@ func cmdCheck(args []string) {
 		os.Exit(2)
 	}
 	cc.w = w
+	reliesTable = w.db.Relies
 	cc.loadKnown()
 	cc.loadLedger()
 
@@ -220,7 +221,9 @@ func (cc *checkCtx) loadKnown() {
 		os.Exit(2)
 	}
 	for _, k := range all {
-		if k.Property == cc.prop {
+		// a finding recorded for the property that owns a mechanism is the same finding when the obligation is
+		// re-checked on behalf of a property that relies on that mechanism ("relies" directive)
+		if k.Property == cc.prop || (cc.w != nil && contains(cc.w.db.Relies[k.Property], cc.prop)) {
 			cc.known = append(cc.known, k)
 		}
 	}
@@ -675,11 +678,24 @@ func (x *Exec) evalInputExpr(fn *ssa.Function, c *Contract, src string) (t *Term
 
 var _ = strings.Join
 
+// reliesTable: SpecDB.Relies of the loaded world (owner property -> properties that rely on it)
+var reliesTable map[string][]string
+
 func contractServes(c *Contract, prop string) bool {
 	if contains(c.Props, prop) || contains(c.Props, prop+":safety") || contains(c.FrameProps, prop) {
 		return true
 	}
-	has := func(cl Clause) bool { return strings.HasPrefix(cl.Label, prop+".") }
+	has := func(cl Clause) bool {
+		if strings.HasPrefix(cl.Label, prop+".") {
+			return true
+		}
+		for owner, rel := range reliesTable {
+			if contains(rel, prop) && strings.HasPrefix(cl.Label, owner+".") {
+				return true
+			}
+		}
+		return false
+	}
 	for _, cl := range c.Ensures {
 		if has(cl) {
 			return true
